@@ -1,17 +1,25 @@
-(* ProtoScan.v — where the line scan of protoFileHasGoPackage is right about "declares
-   option go_package", and where it is not (theorems about ProtoLex.v).
+(* ProtoScan.v — protoFileHasGoPackage against "declares option go_package" (theorems about
+   ProtoLex.v).
 
-   [scan_complete]       the scan says yes for every content that contains the marker
-                         `option go_package =` anywhere (the marker holds no line break, so it
-                         lies within one line) — whatever surrounds it: comments, strings, …
-   [scan_sound]          and only for those: scan c = true -> c = a ++ marker ++ b
+   The code after fix C20-go-package-scan (declaresGoPackage: byte state machine + token matcher):
+   [scan_correct]        scan_go_package c = declares_go_package c   for EVERY content c
+                         (so [scan_agrees c = true]: the mapping clause of C20 needs no condition
+                         on the files any more)
+   [gp_next_spec]        the matcher `token` reaches 4 exactly when the tokens read so far end …
+                         i.e. fold_left gp_next toks m = 4  <->  the declaration continues from
+                         its m-th token at the head of toks, or occurs somewhere in toks
    [declares_canonical]  a content  pre ++ `option go_package = "pkg"` ++ post  whose prefix
                          leaves the lexer outside comments / literals / identifiers declares
-                         the option — so on such files scan and specification agree (yes/yes)
-   [agree_no_marker_no_ident]  (executable form used by the check: [scan_agrees])
-   near misses, as counterexamples to "scan c = declares_go_package c" ([scan_refuted_*]):
-     commented out (line and block comment), inside a string literal   scan yes, declares no
-     no space / two spaces / tab / line break around the tokens        scan no,  declares yes *)
+                         the option (non-vacuity of the specification)
+
+   The code before the fix (line scan for the substring `option go_package =`), kept as a record:
+   [scan_orig_complete] / [scan_orig_sound]   scan_go_package_orig c = true  <->  c contains the
+                         marker anywhere
+   [scan_orig_agrees_canonical]   it was right on the canonical spelling
+   [scan_refuted_*]      and wrong on: commented out (line / block comment), inside a string
+                         literal (yes, nothing declared); no space / two spaces / tab / line
+                         break between the tokens (no, although declared).  Each example also
+                         states that the repaired scan gets it right.                          *)
 From Coq Require Import String List Bool Arith Ascii Lia.
 From GT Require Import ProtoLex.
 Import ListNotations.
@@ -133,9 +141,9 @@ Lemma marker_no_breaks : has_ch nl go_package_marker = false /\ has_ch cr go_pac
 Proof. split; reflexivity. Qed.
 
 (* the scan finds the marker wherever it stands *)
-Theorem scan_complete : forall a b, scan_go_package (a ++ go_package_marker ++ b) = true.
+Theorem scan_orig_complete : forall a b, scan_go_package_orig (a ++ go_package_marker ++ b) = true.
 Proof.
-  intros a b. unfold scan_go_package, scan_lines, content_lines.
+  intros a b. unfold scan_go_package_orig, scan_lines, content_lines.
   destruct marker_no_breaks as [Hnl Hcr].
   destruct (split_on_mid nl go_package_marker a b Hnl) as (pre & x & y & post & E). rewrite E.
   destruct (drop_last_empty_keeps pre (x ++ go_package_marker ++ y)%string post) as [post' E2].
@@ -188,10 +196,10 @@ Proof.
 Qed.
 
 (* … and only then *)
-Theorem scan_sound : forall c, scan_go_package c = true ->
+Theorem scan_orig_sound : forall c, scan_go_package_orig c = true ->
   exists a b, c = (a ++ go_package_marker ++ b)%string.
 Proof.
-  intros c H. unfold scan_go_package, scan_lines, content_lines in H.
+  intros c H. unfold scan_go_package_orig, scan_lines, content_lines in H.
   apply existsb_exists in H. destruct H as (l & Hin & Hc).
   apply in_map_iff in Hin. destruct Hin as (l0 & <- & Hin).
   apply drop_last_empty_In in Hin. destruct (split_on_sub _ _ _ Hin) as (a & b & ->).
@@ -250,15 +258,19 @@ Qed.
 Definition gp_tokens_rev : list token :=
   [TStr; TPunct "="; TIdent "go_package"; TIdent "option"].
 
+Lemma starts_gp_4 : forall r, starts_gp 4 r = true.
+Proof. intros [|t r]; reflexivity. Qed.
+
+Lemma has_of_starts : forall l, starts_gp 0 l = true -> has_go_package_tokens l = true.
+Proof. intros [|t r] H; [discriminate|]. cbn [has_go_package_tokens]. rewrite H. reflexivity. Qed.
+
 Lemma found_mid : forall a b,
   has_go_package_tokens (a ++ [TIdent "option"; TIdent "go_package"; TPunct "="; TStr] ++ b) = true.
 Proof.
   induction a as [|t a IH]; intros b.
-  - reflexivity.
+  - apply has_of_starts. cbn. apply starts_gp_4.
   - change ((t :: a) ++ ?x) with (t :: (a ++ x)).
-    cbn [has_go_package_tokens]. rewrite IH.
-    destruct t; try reflexivity.
-    destruct (a ++ _) as [|[] [|[] [|[] ?]]]; try reflexivity; apply orb_true_r.
+    cbn [has_go_package_tokens]. rewrite IH. apply orb_true_r.
 Qed.
 
 (* the canonical spelling (and any spelling that lexes to the four tokens) is a declaration *)
@@ -284,18 +296,116 @@ Proof.
   apply found_mid.
 Qed.
 
-(* hence, on such content, the scan and the specification agree *)
-Theorem scan_agrees_canonical : forall pre pkg post toks,
+(* hence, on such content, the old line scan and the specification agreed *)
+Theorem scan_orig_agrees_canonical : forall pre pkg post toks,
   lex_from LNormal [] pre = (LNormal, toks) ->
   plain_str """" pkg = true ->
-  scan_agrees (pre ++ "option go_package = """ ++ pkg ++ """" ++ post) = true.
+  scan_agrees_orig (pre ++ "option go_package = """ ++ pkg ++ """" ++ post) = true.
 Proof.
-  intros pre pkg post toks H1 H2. unfold scan_agrees.
+  intros pre pkg post toks H1 H2. unfold scan_agrees_orig.
   rewrite (declares_canonical pre pkg post toks H1 H2).
   change ("option go_package = """ ++ pkg ++ """" ++ post)%string
     with (go_package_marker ++ (" """ ++ pkg ++ """" ++ post))%string.
-  rewrite scan_complete. reflexivity.
+  rewrite scan_orig_complete. reflexivity.
 Qed.
+
+(* ------------------------------------------------------------------ the repaired scan is right *)
+Lemma lex_step_nil : forall st toks c,
+  lex_step st toks c = (fst (lex_step st [] c), snd (lex_step st [] c) ++ toks).
+Proof.
+  intros st toks c. unfold lex_step, lex_start.
+  destruct st; repeat match goal with |- context [if ?b then _ else _] => destruct b end; reflexivity.
+Qed.
+
+Lemma scan_from_lex : forall s st m toks,
+  exists ext, lex_from st toks s = (fst (lex_from st toks s), ext ++ toks)
+              /\ scan_from st m s = (fst (lex_from st toks s), fold_left gp_next (rev ext) m).
+Proof.
+  induction s as [|c r IH]; intros st m toks.
+  - exists []. split; reflexivity.
+  - cbn [lex_from scan_from]. rewrite (lex_step_nil st toks c). unfold scan_step.
+    destruct (lex_step st [] c) as [st1 e1]. cbn [fst snd].
+    destruct (IH st1 (fold_left gp_next (rev e1) m) (e1 ++ toks)) as (ext & E1 & E2).
+    exists (ext ++ e1). rewrite E2. split.
+    + rewrite E1 at 1. cbn [fst]. rewrite app_assoc. reflexivity.
+    + f_equal. rewrite rev_app_distr, fold_left_app. reflexivity.
+Qed.
+
+Lemma gp_next_le : forall m t, m <= 4 -> gp_next m t <= 4.
+Proof.
+  intros m t H. unfold gp_next.
+  repeat match goal with |- context [if ?b then _ else _] => destruct b end; lia.
+Qed.
+
+Lemma fold_gp_le : forall toks m, m <= 4 -> fold_left gp_next toks m <= 4.
+Proof.
+  induction toks as [|t r IH]; intros m H; [exact H|]. cbn [fold_left]. apply IH. apply gp_next_le. exact H.
+Qed.
+
+(* the matcher: it stands at 4 after toks iff the declaration continues at the head of toks from
+   its m-th token, or occurs in toks *)
+Theorem gp_next_spec : forall toks m, m <= 4 ->
+  Nat.eqb (fold_left gp_next toks m) 4 = starts_gp m toks || has_go_package_tokens toks.
+Proof.
+  induction toks as [|t r IH]; intros m Hm.
+  - cbn [fold_left has_go_package_tokens]. rewrite orb_false_r.
+    do 5 (destruct m as [|m]; [reflexivity|]). lia.
+  - cbn [fold_left]. rewrite IH by (apply gp_next_le; exact Hm).
+    cbn [has_go_package_tokens].
+    pose proof (has_of_starts r) as Habs. pose proof (starts_gp_4 r) as H4.
+    assert (Hcase : m = 0 \/ m = 1 \/ m = 2 \/ m = 3 \/ m = 4) by lia.
+    destruct Hcase as [->|[->|[->|[->| ->]]]];
+      unfold gp_next; cbn [Nat.eqb andb starts_gp Nat.leb];
+      destruct t as [s| |c]; cbn [tok_matches andb orb];
+      repeat match goal with |- context [String.eqb ?a ?b] => destruct (String.eqb a b) eqn:? end;
+      repeat match goal with |- context [Ascii.eqb ?a ?b] => destruct (Ascii.eqb a b) eqn:? end;
+      cbn [andb orb]; rewrite ?H4;
+      repeat match goal with |- context [starts_gp ?k r] => destruct (starts_gp k r) eqn:? end;
+      destruct (has_go_package_tokens r) eqn:?; cbn [andb orb];
+      try reflexivity; try (specialize (Habs eq_refl); congruence); try congruence;
+      try (repeat match goal with H : String.eqb _ _ = true |- _ => apply String.eqb_eq in H end;
+           subst; discriminate).
+Qed.
+
+Lemma gp_next_not_str : forall m t, t <> TStr -> Nat.eqb (gp_next m t) 4 = Nat.eqb m 4.
+Proof.
+  intros m t H. unfold gp_next. destruct (Nat.eqb m 4) eqn:E; [reflexivity|].
+  destruct t as [s| |c]; [| contradiction |]; cbn [tok_matches];
+    repeat match goal with |- context [if ?b then _ else _] => destruct b eqn:? end;
+    try reflexivity;
+    repeat match goal with H : _ && _ = true |- _ => apply andb_true_iff in H; destruct H end;
+    try discriminate.
+Qed.
+
+(* declaresGoPackage decides "declares option go_package" — for every content *)
+Theorem scan_correct : forall c, scan_go_package c = declares_go_package c.
+Proof.
+  intros c. unfold scan_go_package, declares_go_package, lex.
+  destruct (scan_from_lex c LNormal 0 []) as (ext & E1 & E2).
+  rewrite E2. destruct (lex_from LNormal [] c) as [st toks] eqn:El. cbn [fst] in *.
+  assert (toks = ext) by (rewrite app_nil_r in E1; congruence). subst toks.
+  set (m := fold_left gp_next (rev ext) 0).
+  assert (Hm : m <= 4) by (apply fold_gp_le; lia).
+  assert (Hf : Nat.eqb (flush_str st m) 4
+               = Nat.eqb (fold_left gp_next (rev ext ++ rev (firstn (length (lex_flush st ext) - length ext) (lex_flush st ext))) 0) 4).
+  { rewrite fold_left_app. change (fold_left gp_next (rev ext) 0) with m.
+    destruct st; cbn [flush_str lex_flush length];
+      rewrite ?Nat.sub_diag; try (replace (S (length ext) - length ext) with 1 by lia);
+      cbn [firstn rev app fold_left]; try reflexivity;
+      symmetry; apply gp_next_not_str; discriminate. }
+  rewrite Hf.
+  assert (Hl : rev (lex_flush st ext)
+               = rev ext ++ rev (firstn (length (lex_flush st ext) - length ext) (lex_flush st ext))).
+  { destruct st; cbn [lex_flush length]; rewrite ?Nat.sub_diag;
+      try (replace (S (length ext) - length ext) with 1 by lia); cbn [firstn rev app];
+      rewrite ?app_nil_r; reflexivity. }
+  rewrite <- Hl. rewrite gp_next_spec by lia.
+  destruct (starts_gp 0 (rev (lex_flush st ext))) eqn:Es; [|reflexivity].
+  rewrite (has_of_starts _ Es). reflexivity.
+Qed.
+
+Theorem scan_agrees_all : forall c, scan_agrees c = true.
+Proof. intros c. unfold scan_agrees. rewrite scan_correct. apply Bool.eqb_reflx. Qed.
 
 (* ------------------------------------------------------------------ near misses *)
 Definition hdr : string := "syntax = ""proto3"";" ++ String nl ("package t;" ++ String nl "").
@@ -304,44 +414,44 @@ Definition body : string := "message M {" ++ String nl ("  int32 f = 1;" ++ Stri
 (* scan says yes, nothing is declared *)
 Example scan_refuted_line_comment :
   let c := (hdr ++ "// option go_package = ""x"";" ++ String nl body)%string in
-  scan_go_package c = true /\ declares_go_package c = false.
-Proof. vm_compute. split; reflexivity. Qed.
+  scan_go_package_orig c = true /\ declares_go_package c = false /\ scan_go_package c = false.
+Proof. vm_compute. repeat split; reflexivity. Qed.
 
 Example scan_refuted_block_comment :
   let c := (hdr ++ "/* option go_package = ""x""; */" ++ String nl body)%string in
-  scan_go_package c = true /\ declares_go_package c = false.
-Proof. vm_compute. split; reflexivity. Qed.
+  scan_go_package_orig c = true /\ declares_go_package c = false /\ scan_go_package c = false.
+Proof. vm_compute. repeat split; reflexivity. Qed.
 
 Example scan_refuted_string_literal :
   let c := (hdr ++ "option java_package = ""option go_package = x"";" ++ String nl body)%string in
-  scan_go_package c = true /\ declares_go_package c = false.
-Proof. vm_compute. split; reflexivity. Qed.
+  scan_go_package_orig c = true /\ declares_go_package c = false /\ scan_go_package c = false.
+Proof. vm_compute. repeat split; reflexivity. Qed.
 
 (* scan says no, the option is declared *)
 Example scan_refuted_no_space :
   let c := (hdr ++ "option go_package=""x"";" ++ String nl body)%string in
-  scan_go_package c = false /\ declares_go_package c = true.
-Proof. vm_compute. split; reflexivity. Qed.
+  scan_go_package_orig c = false /\ declares_go_package c = true /\ scan_go_package c = true.
+Proof. vm_compute. repeat split; reflexivity. Qed.
 
 Example scan_refuted_two_spaces :
   let c := (hdr ++ "option  go_package  =  ""x"";" ++ String nl body)%string in
-  scan_go_package c = false /\ declares_go_package c = true.
-Proof. vm_compute. split; reflexivity. Qed.
+  scan_go_package_orig c = false /\ declares_go_package c = true /\ scan_go_package c = true.
+Proof. vm_compute. repeat split; reflexivity. Qed.
 
 Example scan_refuted_tab :
   let c := (hdr ++ "option" ++ String "009" "go_package = ""x"";" ++ String nl body)%string in
-  scan_go_package c = false /\ declares_go_package c = true.
-Proof. vm_compute. split; reflexivity. Qed.
+  scan_go_package_orig c = false /\ declares_go_package c = true /\ scan_go_package c = true.
+Proof. vm_compute. repeat split; reflexivity. Qed.
 
 Example scan_refuted_line_break :
   let c := (hdr ++ "option go_package" ++ String nl "    = ""x"";" ++ String nl body)%string in
-  scan_go_package c = false /\ declares_go_package c = true.
-Proof. vm_compute. split; reflexivity. Qed.
+  scan_go_package_orig c = false /\ declares_go_package c = true /\ scan_go_package c = true.
+Proof. vm_compute. repeat split; reflexivity. Qed.
 
 (* agreement where nothing is near: no option at all, and the canonical one in several places *)
-Example scan_agrees_examples :
-  scan_agrees (hdr ++ body) = true
-  /\ scan_agrees (hdr ++ "option go_package = ""example.com/x"";" ++ String nl body) = true
-  /\ scan_agrees (hdr ++ body ++ "  option go_package = ""example.com/x"";") = true
-  /\ scan_agrees (hdr ++ "// a comment" ++ String nl ("/* block */ option go_package = ""x"";" ++ String nl body)) = true.
+Example scan_orig_agrees_examples :
+  scan_agrees_orig (hdr ++ body) = true
+  /\ scan_agrees_orig (hdr ++ "option go_package = ""example.com/x"";" ++ String nl body) = true
+  /\ scan_agrees_orig (hdr ++ body ++ "  option go_package = ""example.com/x"";") = true
+  /\ scan_agrees_orig (hdr ++ "// a comment" ++ String nl ("/* block */ option go_package = ""x"";" ++ String nl body)) = true.
 Proof. vm_compute. repeat split. Qed.
